@@ -693,6 +693,38 @@ fn convert_rpx_in_block(
                         let unicode_range = input.try_parse(|input| {
                             input.skip_whitespace();
                             let start = cssparser::Parser::position(input);
+                            // cssparser computes the code points without an overflow check:
+                            // look ahead and only hand it hex digit runs of a valid length
+                            let state = cssparser::Parser::state(input);
+                            loop {
+                                let before = cssparser::Parser::state(input);
+                                match cssparser::Parser::next_including_whitespace(input) {
+                                    Ok(Token::Ident(_))
+                                    | Ok(Token::Number { .. })
+                                    | Ok(Token::Dimension { .. })
+                                    | Ok(Token::Delim('+'))
+                                    | Ok(Token::Delim('?')) => {}
+                                    _ => {
+                                        cssparser::Parser::reset(input, &before);
+                                        break;
+                                    }
+                                }
+                            }
+                            let text = input.slice_from(start);
+                            let valid_len = match text.get(2..) {
+                                Some(x) if x.len() > 0 => {
+                                    x.split('-').all(|x| x.len() >= 1 && x.len() <= 6)
+                                }
+                                _ => false,
+                            };
+                            cssparser::Parser::reset(input, &state);
+                            if !valid_len {
+                                let err = cssparser::Parser::new_basic_unexpected_token_error(
+                                    input,
+                                    Token::Ident("u".into()),
+                                );
+                                return Err(err);
+                            }
                             cssparser::UnicodeRange::parse(input)?;
                             Ok::<_, cssparser::BasicParseError>(input.slice_from(start).to_string())
                         });
